@@ -136,7 +136,9 @@ OptFit(f) == LET K == Kt(f)  e == EigFitK(f, K) IN
              ELSE "ok"
 \* end points.  mixing = 1: PCA.  Witness pcaV (m x k right singular vectors) is verified as an eigenbasis of X^T X with the
 \* reported spectrum, scores are then computed by the specification itself.
-PcaFit(f) == IF f.a # 8 \/ f.pcaV = <<>> \/ ~Separated(f) THEN "ok"
+\* kform = <<what PCA keeps, what PCovR keeps>> for the same request given as a variance fraction or as 'mle' (<<>>: not probed)
+PcaFit(f) == IF f.a = 8 /\ f.kform # <<>> /\ f.kform[1] # f.kform[2] THEN "mixing-1-keeps-a-different-number-of-components-than-PCA"
+             ELSE IF f.a # 8 \/ f.pcaV = <<>> \/ ~Separated(f) THEN "ok"
              ELSE LET G == FMatMul(FTr(X), X)  sc == FMatMul(X, f.pcaV) IN
                   IF ~IsEigen(G, f.pcaV, f.lam, 4 * m * (Mag(G) + 3) + FVMaxAbs(f.lam) \div 300) THEN "ok"   \* witness not usable
                   ELSE IF ~EqUpToSigns(f.T, sc, f.k, PB(m, X, f.pxt) + 64) THEN "mixing-1-differs-from-PCA"
